@@ -32,6 +32,7 @@ func verifyVPCheck(p *Prog) Check {
 
 func c02(r *Report) {
 	defer c02Seed5(r)
+	defer c02Seed6(r)
 	p := r.P
 	const iam = "auth/api/iam"
 	r.Explanation = "Static decision of the structural conditions for access-token issuance and introspection: (1) the access-token store is written only in createAccessToken, which is called only from the two token-endpoint flows; (2) in the service-to-service flow the call is reachable only through envelope/submission parsing, and — for each presentation — max-validity, signer==subject, audience, nonce-not-seen and VerifyVP(verifyVCs=true), plus definition lookup for the scope and PEX fulfilment; in the authorization-code flow only through a burn-read of the code, client-id equality, PKCE and DPoP parsing; (3) an authorization code is minted only in the response-submission handler after state lookup, tenant equality, nonce, signer, audience, VerifyVP, fulfilment, and all definitions fulfilled; (4) each validator's own success return is gated by its comparison; (5) introspection reports active only through store lookup and non-expiry, builds the response from the stored token's fields, and the reserved-claim list guarding credential-derived claims covers every named response field."
